@@ -138,8 +138,8 @@ def _ver_violations(rep, cases, rejects, prefix):
         x = c["x"]
         for w in rj["why"]:
             key = "%s:%s:%s:%s" % (prefix, x["ver"], w, _norm_note(c["note"]))
-            t = int.from_bytes(bytes(c["t"]["s"]), "big")
-            rep.violation(key, "Verify(%s exchange, t=%d.%09d) -> ok=%s: %s [scenario: %s; uri %r; Signature %r]" % (
+            t = int.from_bytes(bytes(c["t"]["s"]), "big", signed=True)
+            rep.violation(key, "Verify(%s exchange, t=%d s +%09d ns) -> ok=%s: %s [scenario: %s; uri %r; Signature %r]" % (
                 x["ver"], t, c["t"]["ns"], c["ok"], w, c["note"], txt(x["uri"])[:60], txt(x["sighdr"])[:100]),
                 {"component": "sxgver", "event": c if len(json.dumps(c)) < 200000 else {"case": c["case"], "note": c["note"]}, "why": w})
 
@@ -245,7 +245,7 @@ def check_c09(tier):
             want = c["note"].startswith("ABSTRACT-OK")
             if want != c["ok"]:
                 scn = json.loads(c["note"].split(" ", 1)[1])["s"]
-                dev = {k: v for k, v in scn.items() if k != "ver" and v != {"t": "mid", "life": 3600, "method": "GET", "reqhdr": "none", "resphdr": "none", "cc": [], "ccform": "one",
+                dev = {k: v for k, v in scn.items() if k != "ver" and v != {"win": "fixed", "decoy": ["none", "none"], "t": "mid", "life": 3600, "method": "GET", "reqhdr": "none", "resphdr": "none", "cc": [], "ccform": "one",
                                                                          "expireshdr": False, "status": 200, "vurl": "same", "ct": True, "integ": "right"}[k]}
                 rep.violation("pol:abstract:%s:%s:%s" % (scn["ver"], "accepts" if c["ok"] else "rejects", ",".join(sorted(dev))),
                               "Verify %s a %s exchange with deviations %s, the policy model says %s" % ("accepts" if c["ok"] else "rejects", scn["ver"], dev, "accept" if want else "reject"),
